@@ -4,6 +4,8 @@ import Tbx.Proofs.FlowCut
 import Tbx.Proofs.FlowDinicDfs
 import Tbx.Proofs.FlowSweepTotal
 import Tbx.Model.FlowDinic
+import Tbx.Proofs.FlowDinicRerun
+import Tbx.Proofs.FlowEKRerun
 /-
 C02 — the returned node assignment is the canonical minimum cut.
 
@@ -212,6 +214,28 @@ theorem accepted_assignments_agree (es : List E) (s t : Nat) (r1 r2 : List E) (x
   have e2 : b2.getD i false = b2[i] := by simp [List.getD_eq_getElem?_getD, h2']
   rw [e1, e2] at this
   cases hb1 : b1[i] <;> cases hb2 : b2[i] <;> simp_all
+
+/-- **dinic_rerun_same_cut**: after a completed run of the Dinic model, `k` further `run()` calls on the same
+    object leave the source-side assignment exactly as it was (the residual graph is untouched,
+    `runAgainN_fixed`) -/
+theorem dinic_rerun_same_cut (es : List Edge) (s t : Nat) (hnn : ∀ e, e ∈ es → 0 ≤ e.cap) (hst : s ≠ t)
+    (hN : nNodes (es.map toE) + 2 < INV) (d : Dinic) (hd : Dinic.fromEdgeList es s t = some d)
+    (fuel : Nat) (d' : Dinic) (h : d.run fuel = some d') (fuel' k src : Nat) :
+    ∃ d'', Dinic.runAgainN (fuel' + 1) k d' = some d'' ∧ d''.assignment? src = d'.assignment? src := by
+  obtain ⟨hs, ht, hq⟩ := run_quiet es s t hnn hst hN d hd fuel d' h
+  obtain ⟨d'', h2, _, g2, q2⟩ := runAgainN_fixed (fun e => hst (Fin.mk.inj e)) hN fuel' k d' hq
+  refine ⟨d'', h2, ?_⟩
+  unfold Dinic.assignment?; rw [g2, q2.fin, hq.fin]
+
+/-- **ek_ff_rerun_same_cut**: the same for EdmondsKarp / FordFulkerson -/
+theorem ek_ff_rerun_same_cut (es : List Edge) (s t : Nat) (hnn : ∀ e, e ∈ es → 0 ≤ e.cap) (hst : s ≠ t)
+    (hN : nNodes (es.map toE) ≤ INV) (pop : List Nat → Option (Nat × List Nat)) (hp : PopOK pop)
+    (hl : PopLen pop) (fuel : Nat) (sv' : Solver) (h : (Solver.fromEdgeList es s t).run pop fuel = some sv')
+    (fuel' k src : Nat) :
+    ∃ sv'', Solver.runN pop (fuel' + 1) k sv' = some sv'' ∧ sv''.assignment? src = sv'.assignment? src := by
+  obtain ⟨s2, h2, _, g2, f2, f1⟩ := Flow.ek_ff_rerun es s t hnn hst hN pop hp hl fuel sv' h fuel' k
+  refine ⟨s2, h2, ?_⟩
+  unfold Solver.assignment?; rw [g2, f2, f1]
 
 /-- the tabulated checker the judge executes is the reference checker -/
 theorem judge_checker_eq (es : List E) (s t : Nat) (res : List E) (x : ℤ) (bits : List Bool) :
